@@ -166,6 +166,7 @@ func (p *poller) start() {
 	defer logging.Debug("NBIO[%v][%v_%v] stopped", p.g.Name, p.pollType, p.index)
 
 	if p.isListener {
+		defer p.g.wgListeners.Done()
 		p.acceptorLoop()
 	} else {
 		defer func() {
